@@ -552,7 +552,9 @@ def deriveKeyBody (v : Nat) : Rd Payload := do
   done "DeriveKey"
   pure (.deriveKey ot us (some t) d.isSome ((d.map List.length).getD 0))
 
-/-- locate.py l.192-264 — no `is_oversized`: what follows the attributes is never looked at -/
+/-- locate.py l.192-266 — since /repo ee214ee the reader ends with `is_oversized` like every other request payload
+(before, what followed the attributes was never looked at: a 2.0 Attributes structure under a 1.x header was dropped
+and the Locate ran without its filters) -/
 def locateBody (v : Nat) : Rd Payload := do
   let mx ← opt T.maximumItems (asInt "maximum items")
   let off ← opt T.offsetItems (asInt "offset items")
@@ -560,9 +562,11 @@ def locateBody (v : Nat) : Rd Payload := do
   let _ ← opt T.objectGroupMember (asEnum "object group member" E.objectGroupMember)
   if v < 20 then
     let as ← many T.attribute_ attribute1x
+    done "Locate"
     pure (.locate mx off as)
   else
     let as ← opt T.attributes_ (attributes20 "Attributes")
+    done "Locate"
     pure (.locate mx off (as.getD []))
 
 /-- get.py l.157-216 -/
